@@ -20,6 +20,7 @@ def check(repo: Repo, rep, tier):
     cont(repo, rep)
     assign_agree(repo, rep)
     flush(repo, rep)
+    same_type(repo, rep)
     apply_exh(repo, rep)
     ctx_restore(repo, rep)
 
@@ -255,3 +256,34 @@ def flush(repo: Repo, rep):
                 else:
                     rep.ok("R-FLUSH", f, a.ast, f"`{X}` always flushed by an insert change")
     rep.floor("R-FLUSH", "accumulation sites", n, 4)
+
+
+def same_type(repo: Repo, rep):
+    rep.rule(
+        "R-SAME-TYPE",
+        "Adapter.get_adapter hands out a structural adapter (element-wise repair that keeps the old constructor/brackets) only when old and new value have "
+        "exactly the same type (`type(a) is type(b)`); any other pair is replaced as a whole by ValueAdapter - an isinstance test is weaker and keeps the "
+        "old class name for an instance of a subclass, so the repaired snapshot still fails",
+    )
+    f = repo.func("_adapter/adapter.py::Adapter.get_adapter")
+    cfg = cfg_of(f)
+    a, b = f.params[1], f.params[2]
+    exact = []
+    for c in cfg.conds():
+        e = c.ast
+        if isinstance(e, ast.Compare) and len(e.ops) == 1 and isinstance(e.ops[0], (ast.Is, ast.IsNot, ast.Eq, ast.NotEq)):
+            sides = {norm(e.left), norm(e.comparators[0])}
+            if sides == {f"type({a})", f"type({b})"}:
+                same = "T" if isinstance(e.ops[0], (ast.Is, ast.Eq)) else "F"
+                exact.append((c, same))
+    rets = [r for r in cfg.stmts(ast.Return) if r.ast.value is not None and "ValueAdapter" not in norm(r.ast.value)]
+    if not rets:
+        rep.undecided("R-SAME-TYPE", "no structural-adapter return found in get_adapter")
+        return
+    from ..cfg import edges_dominate
+
+    for r in rets:
+        if exact and edges_dominate(cfg, exact, r):
+            rep.ok("R-SAME-TYPE", f, r.ast, "structural adapter only for identical types")
+        else:
+            rep.violation("R-SAME-TYPE", f, r.ast, "a structural adapter is chosen although old and new value need not have the same type (no `type(old) is type(new)` test on every path): fix repairs the arguments but keeps the old class name, so the comparison still fails after the fix", construct="get_adapter")
